@@ -73,30 +73,39 @@ var answers = []string{
 }
 
 func buildUI(u uiCfg, log *[]uiCall, mu *sync.Mutex, withTimer bool) *plugin.ClientUI {
+	return buildUIDyn(u, func(string) uiCfg { return u }, func(_ string, c uiCall) { mu.Lock(); *log = append(*log, c); mu.Unlock() }, withTimer)
+}
+
+// buildUIDyn: which callbacks exist is fixed by shape; how they behave (fail
+// or not, which answer) is asked of cur at every call and the call is handed
+// to add, both with the plugin name the callback was given, so one ClientUI
+// value can serve conversations of several plugins, one after the other and
+// side by side.
+func buildUIDyn(shape uiCfg, cur func(name string) uiCfg, add func(name string, c uiCall), withTimer bool) *plugin.ClientUI {
 	ui := &plugin.ClientUI{}
-	add := func(c uiCall) { mu.Lock(); *log = append(*log, c); mu.Unlock() }
-	if u.disp != 0 {
+	if shape.disp != 0 {
 		ui.DisplayMessage = func(name, message string) error {
-			add(uiCall{Kind: "msg", Name: name, Text: message})
-			if u.disp == 2 {
+			add(name, uiCall{Kind: "msg", Name: name, Text: message})
+			if cur(name).disp == 2 {
 				return errors.New("display failed")
 			}
 			return nil
 		}
 	}
-	if u.req != 0 {
+	if shape.req != 0 {
 		ui.RequestValue = func(name, prompt string, secret bool) (string, error) {
-			add(uiCall{Kind: "request", Name: name, Text: prompt, Secret: secret})
+			add(name, uiCall{Kind: "request", Name: name, Text: prompt, Secret: secret})
+			u := cur(name)
 			if u.req == 2 {
 				return "", errors.New("request failed")
 			}
 			return answers[u.ans], nil
 		}
 	}
-	if u.conf != 0 {
+	if shape.conf != 0 {
 		ui.Confirm = func(name, prompt, yes, no string) (bool, error) {
-			add(uiCall{Kind: "confirm", Name: name, Text: prompt, Yes: yes, No: no})
-			switch u.conf {
+			add(name, uiCall{Kind: "confirm", Name: name, Text: prompt, Yes: yes, No: no})
+			switch cur(name).conf {
 			case 1:
 				return true, nil
 			case 2:
@@ -106,7 +115,7 @@ func buildUI(u uiCfg, log *[]uiCall, mu *sync.Mutex, withTimer bool) *plugin.Cli
 		}
 	}
 	if withTimer {
-		ui.WaitTimer = func(name string) { add(uiCall{Kind: "wait", Name: name}) }
+		ui.WaitTimer = func(name string) { add(name, uiCall{Kind: "wait", Name: name}) }
 	}
 	return ui
 }
@@ -649,6 +658,7 @@ func main() {
 	var next int
 	var nmu sync.Mutex
 	var wg sync.WaitGroup
+	cache := &uiCache{m: map[uiKey]*sharedUI{}}
 	for w := 0; w < workers; w++ {
 		wg.Add(1)
 		go func(w int) {
@@ -661,11 +671,16 @@ func main() {
 				if i >= len(convs) || hangs.Load() >= 3 {
 					return
 				}
-				r.Guard(convs[i].describe(), func() { runConv(r, env, names[w], convs[i]) })
+				r.Guard(convs[i].describe(), func() { runConvOn(r, env, names[w], convs[i], cache) })
 			}
 		}(w)
 	}
 	wg.Wait()
+	r.Set("most_conversations_on_one_ClientUI", maxOnOneUI.convs)
+	r.Set("most_plugin_messages_on_one_ClientUI", maxOnOneUI.msgs)
+	if maxOnOneUI.msgs < 2000 && hangs.Load() == 0 {
+		r.Inconclusive("no ClientUI value saw 2000 plugin messages (most: %d)", maxOnOneUI.msgs)
+	}
 	fuzzStreams(r, env, names)
 	afterFailedPhase1(r, env)
 	helperStage(r, env, names[0], convs)
@@ -684,7 +699,67 @@ type callResult struct {
 	err     error
 }
 
-func runConv(r *mon.Run, env *plug.Env, name string, c *conv) {
+// A ClientUI is meant to be shared: the command line tool has one for the
+// whole process. The sweep therefore keeps ONE ClientUI value per set of
+// callbacks for all workers and runs its conversations on it, one after the
+// other and side by side (different objects, machines and plugin names; every
+// callback is told the plugin name, which is what the log is kept by); every
+// seventh conversation and the special stages get a value of their own.
+type uiKey struct {
+	disp, req, conf, timer bool // which callbacks the value has
+}
+
+type nameState struct {
+	mu    sync.Mutex
+	calls []uiCall
+	cur   uiCfg
+}
+
+type sharedUI struct {
+	ui    *plugin.ClientUI
+	names sync.Map // plugin name -> *nameState
+	convs atomic.Int64
+	msgs  atomic.Int64
+}
+
+func (s *sharedUI) of(name string) *nameState {
+	v, _ := s.names.LoadOrStore(name, &nameState{})
+	return v.(*nameState)
+}
+
+type uiCache struct {
+	mu sync.Mutex
+	m  map[uiKey]*sharedUI
+}
+
+func (c *uiCache) get(k uiKey, shape uiCfg) *sharedUI {
+	c.mu.Lock()
+	defer c.mu.Unlock()
+	s := c.m[k]
+	if s == nil {
+		s = &sharedUI{}
+		s.ui = buildUIDyn(shape,
+			func(name string) uiCfg { st := s.of(name); st.mu.Lock(); defer st.mu.Unlock(); return st.cur },
+			func(name string, call uiCall) {
+				st := s.of(name)
+				st.mu.Lock()
+				st.calls = append(st.calls, call)
+				st.mu.Unlock()
+			},
+			k.timer)
+		c.m[k] = s
+	}
+	return s
+}
+
+var maxOnOneUI struct {
+	sync.Mutex
+	convs, msgs int64
+}
+
+func runConv(r *mon.Run, env *plug.Env, name string, c *conv) { runConvOn(r, env, name, c, nil) }
+
+func runConvOn(r *mon.Run, env *plug.Env, name string, c *conv, cache *uiCache) {
 	sc := &plug.Script{Burst: c.burst, Helper: c.helper, ExitCode: c.exit, OnInterrupt: c.onInt}
 	for i, m := range c.msgs {
 		switch m.term {
@@ -706,9 +781,33 @@ func runConv(r *mon.Run, env *plug.Env, name string, c *conv) {
 		r.Inconclusive("cannot write script: %v", err)
 		return
 	}
-	var calls []uiCall
-	var cmu sync.Mutex
-	ui := buildUI(c.ui, &calls, &cmu, c.timer)
+	var ownCalls []uiCall
+	var ownMu sync.Mutex
+	callsP, cmu := &ownCalls, &ownMu
+	var ui *plugin.ClientUI
+	if cache != nil && c.id%7 != 0 {
+		su := cache.get(uiKey{c.ui.disp != 0, c.ui.req != 0, c.ui.conf != 0, c.timer}, c.ui)
+		// the plugin name is prefixed by the library in what it tells the callbacks
+		st := su.of(name)
+		st.mu.Lock()
+		st.calls, st.cur = nil, c.ui
+		st.mu.Unlock()
+		ui, callsP, cmu = su.ui, &st.calls, &st.mu
+		nc, nm := su.convs.Add(1), su.msgs.Add(int64(len(c.msgs)))
+		if nc > 1 {
+			r.Count("conversations_on_a_ClientUI_used_before", 1)
+		}
+		maxOnOneUI.Lock()
+		if nc > maxOnOneUI.convs {
+			maxOnOneUI.convs = nc
+		}
+		if nm > maxOnOneUI.msgs {
+			maxOnOneUI.msgs = nm
+		}
+		maxOnOneUI.Unlock()
+	} else {
+		ui = buildUI(c.ui, callsP, cmu, c.timer)
+	}
 
 	data := []byte{1, 2, 3, byte(c.id), byte(c.id >> 8)}
 	var encoding string
@@ -875,7 +974,7 @@ func runConv(r *mon.Run, env *plug.Env, name string, c *conv) {
 
 	// ---- UI callbacks ----
 	cmu.Lock()
-	gotCalls := append([]uiCall(nil), calls...)
+	gotCalls := append([]uiCall(nil), (*callsP)...)
 	cmu.Unlock()
 	var gotNoWait []uiCall
 	waits := 0
